@@ -35,6 +35,11 @@ fn operand(ctx: &mut Ctx) -> Dd {
     if let Some(c) = maybe_constant(ctx, 24, false) {
         return c;
     }
+    if ctx.chance(1, 12) {
+        if let Some(d) = derived_operand(ctx, -1000, 999) {
+            return d;
+        }
+    }
     let c = ctx.weighted(&[5, 5, 4, 3, 2, 1]);
     let d = match c {
         0 => dd_closed(ctx, -1000, 1000, true),
